@@ -304,6 +304,7 @@ def run(tier):
     # ---- W16.proxy + W16.rebind ---------------------------------------------------------------------------------
     proxy_check(wd, pch, meta, table, rep, tier)
     rebind_check(wd, pch, rep)
+    cast_check(wd, rep, (1, 2) if tier == "quick" else (1, 2, 3))
     rep.exhaustive = True
     rep.sample(dict(path="array<int,2> const& . rotated() . begin()  -> (*it)[0]", verdict="not writable"))
     for c, pl in list(explained.items())[:3]:
@@ -489,3 +490,93 @@ def rebind_check(wd, pch, rep):
             rep.violated(key, "W16.rebind", "view/reference type is copyable or rebindable: " + nm, dict(cond=cond))
         else:
             rep.ok(key, "W16.rebind", cond)
+
+
+# ---------------------------------------------------------------------------------------------------------------
+# W16.cast: const propagation through the projection / cast views (view-forming operations that change the element type)
+CAST_PRE = r"""
+#include <boost/multi/array.hpp>
+#include <complex>
+#include <type_traits>
+#include <utility>
+namespace multi = boost::multi;
+struct S3 { double x, y, z; };
+struct C2 { double re, im; };
+using cplx = std::complex<double>;
+inline double& gety(S3& s) { return s.y; }
+inline double const& getyc(S3 const& s) { return s.y; }
+template<class V> auto first_elem(V&& v) -> decltype(auto) {
+	if constexpr(std::decay_t<V>::rank_v == 1) { return std::forward<V>(v)[0]; } else { return first_elem(std::forward<V>(v)[0]); }
+}
+template<class V> using elem_t = decltype(first_elem(std::declval<V>()));
+"""
+
+CAST_ROOTS = [
+    ("array&", "multi::array<E, D>&", True),
+    ("array const&", "multi::array<E, D> const&", False),
+    ("array&&", "multi::array<E, D>&&", True),
+    ("view held by auto&&", "decltype(std::declval<multi::array<E, D>&>()())&", True),
+    ("view of a const array held by auto&&", "decltype(std::declval<multi::array<E, D> const&>()())&", False),
+    ("view held by auto const&", "decltype(std::declval<multi::array<E, D>&>()()) const&", False),
+    ("temporary view", "decltype(std::declval<multi::array<E, D>&>()())&&", True),
+    ("temporary view of a const array", "decltype(std::declval<multi::array<E, D> const&>()())&&", False),
+    ("array_ref&", "multi::array_ref<E, D>&", True),
+    ("array_ref const&", "multi::array_ref<E, D> const&", False),
+]
+CAST_OPS = [
+    ("member_cast<double>(&S3::y)", "S3", "std::declval<RR>().template member_cast<double>(&S3::y)", "double", None),
+    ("reinterpret_array_cast<cplx>()", "C2", "std::declval<RR>().template reinterpret_array_cast<cplx>()", "cplx", None),
+    ("reinterpret_array_cast<cplx const>()", "C2", "std::declval<RR>().template reinterpret_array_cast<cplx const>()", "cplx", False),
+    ("reinterpret_array_cast<double>(2)", "C2", "std::declval<RR>().template reinterpret_array_cast<double>(2)", "double", None),
+    ("element_transformed(f)", "S3", "std::declval<RR>().element_transformed(GETY)", "double", None),
+    ("static_array_cast<double const>()", "double", "std::declval<RR>().template static_array_cast<double const>()", "double", False),
+]
+
+
+def cast_check(wd, rep, dims):
+    lines = [CAST_PRE]
+    idx = {}
+    k = 0
+    for D in dims:
+        for rn, rt, mut in CAST_ROOTS:
+            for on, E, expr, vt, force in CAST_OPS:
+                k += 1
+                rtt = rt.replace("E, D", "%s, %d" % (E, D))
+                ex = expr.replace("GETY", "gety" if mut else "getyc")
+                lines.append("namespace c%d { using R = %s; template<class RR = R> auto f(int) -> std::integral_constant<int, std::is_assignable_v<elem_t<decltype(%s)>, %s> ? 1 : 0>; "
+                             "template<class RR = R> auto f(...) -> std::integral_constant<int, -1>; static_assert(decltype(f<>(0))::value == 99, \"W16C %d\"); }" % (k, rtt, ex, vt, k))
+                idx[k] = (D, rn, on, (1 if mut else 0) if force is None else (1 if force else 0), mut)
+    tu = os.path.join(wd, "casts.cpp")
+    with open(tu, "w") as fh:
+        fh.write("\n".join(lines) + "\n")
+    rc, diags, raw = witness.compile_tu(tu)
+    got = {}
+    for e, notes in witness.group_errors(diags):
+        m = re.search(r"integral_constant<int, (-?\d+)>::value == 99' \"W16C (\d+)\"", e["msg"])
+        if m:
+            got[int(m.group(2))] = int(m.group(1))
+        else:
+            rep.break_("W16.cast witness TU: " + e["msg"][:160])
+    bad = {}
+    n = 0
+    for k, (D, rn, on, want, mut) in idx.items():
+        v = got.get(k)
+        if v is None:
+            rep.break_("W16.cast witness %d produced no verdict" % k)
+            continue
+        if v == -1:
+            continue            # the cast does not exist for this root (ill-formed): nothing is yielded
+        n += 1
+        if v == want:
+            rep.ok("W16.cast#%d" % k, "W16.cast", None)
+        elif want == 0:
+            # culprit: the cast applied to this kind of root (dimension normalised)
+            bad.setdefault(("W16.cast:%s on %s" % (on, rn)), []).append("D=%d" % D)
+        else:
+            bad.setdefault(("W16.castmut:%s on %s" % (on, rn)), []).append("D=%d" % D)
+    for key, ds in sorted(bad.items()):
+        if key.startswith("W16.cast:"):
+            rep.violated(key, "W16.cast", "%s (%s) yields a modifiable element reference although the source is const / read-only" % (key[9:], ", ".join(ds)), dict(dims=ds))
+        else:
+            rep.violated(key, "W16.cast", "%s (%s) of a mutable source yields a read-only element" % (key[12:], ", ".join(ds)), dict(dims=ds))
+    rep.need_instances("W16.cast well-formed (cast, root, D)", n, 100 if len(dims) == 2 else 150)
